@@ -42,42 +42,59 @@ structure SendSt where
   used : Nat
   msgs : List Bytes := []     -- the byte strings handed to `write_all`, in order (for the cross-check against `sendSeq`)
 
+/-- the edits applied through the send guard's `DerefMut` after the message has been emplaced (their results are not reported:
+the operation suite compares those); a fault of the model stops the message -/
+def applyEdits (t : Ty) : List Op → Bytes → Option Bytes
+  | [], b => some b
+  | op :: ops, b =>
+    match applyOp op t ⟨0, b⟩ with
+    | .ok o => applyEdits t ops o.bytes
+    | _ => none
+
 /-- blocking sender: all messages in turn -/
-def sendAllB (t : Ty) : List Init → List WriteEv → SendSt → List String → List String × SendSt
+def sendAllB (t : Ty) : List (Init × List Op) → List WriteEv → SendSt → List String → List String × SendSt
   | [], _, st, acc => (acc.reverse, st)
-  | i :: is, evs, st, acc =>
+  | (i, eds) :: is, evs, st, acc =>
     match emplace t i ⟨0, st.buf⟩ with
     | .ok o =>
       let st1 := { st with buf := o.bytes }
       match o.res with
       | .error e => sendAllB t is evs st1 (s!"emplace:{errStr e}" :: acc)
       | .ok () =>
+        match applyEdits t eds o.bytes with
+        | none => sendAllB t is evs st1 ("FAULT" :: acc)
+        | some mb =>
+        let st1 := { st1 with buf := mb }
         if st.poisoned then sendAllB t is evs { st1 with msgs := st.msgs ++ [[]] } ("PANIC" :: acc)
-        else match t.dict.size ⟨0, o.bytes⟩ with
+        else match t.dict.size ⟨0, mb⟩ with
           | .ok z =>
-            let r := writeAll (o.bytes.take z) evs 0 st.sink st.used
+            let r := writeAll (mb.take z) evs 0 st.sink st.used
             let res := match r.out with | .done => "ok" | .brokenPipe => "err:BrokenPipe" | .err k => "err:" ++ kindName k | .blocked => "BLOCKED"
-            sendAllB t is r.evs { st1 with sink := r.sink, poisoned := r.poisoned, used := r.used, msgs := st.msgs ++ [o.bytes.take z] } (res :: acc)
+            sendAllB t is r.evs { st1 with sink := r.sink, poisoned := r.poisoned, used := r.used, msgs := st.msgs ++ [mb.take z] } (res :: acc)
           | _ => sendAllB t is evs st1 ("FAULT" :: acc)
     | _ => (("FAULT" :: acc).reverse, st)
 
 /-- async sender: `WriteAll` polled again after every `Pending` -/
-def sendAllA (t : Ty) : List Init → List AEv → SendSt → List String → List String × SendSt
+def sendAllA (t : Ty) : List (Init × List Op) → List AEv → SendSt → List String → List String × SendSt
   | [], _, st, acc => (acc.reverse, st)
-  | i :: is, evs, st, acc =>
+  | (i, eds) :: is, evs, st, acc =>
     match emplace t i ⟨0, st.buf⟩ with
     | .ok o =>
       let st1 := { st with buf := o.bytes }
       match o.res with
       | .error e => sendAllA t is evs st1 (s!"emplace:{errStr e}" :: acc)
       | .ok () =>
+        match applyEdits t eds o.bytes with
+        | none => sendAllA t is evs st1 ("FAULT" :: acc)
+        | some mb =>
+        let st1 := { st1 with buf := mb }
         if st.poisoned then sendAllA t is evs { st1 with msgs := st.msgs ++ [[]] } ("PANIC" :: acc)
-        else match t.dict.size ⟨0, o.bytes⟩ with
+        else match t.dict.size ⟨0, mb⟩ with
           | .ok z =>
-            let (p, a, evs') := arun (o.bytes.take z) evs ⟨0, st.sink, false⟩
+            let (p, a, evs') := arun (mb.take z) evs ⟨0, st.sink, false⟩
             let res := match p with | .done => "ok" | .brokenPipe => "err:BrokenPipe" | .err k => "err:" ++ kindName k | .flushErr k => "err:" ++ kindName k
                                     | .pending => "STUCK" | .blocked => "BLOCKED"
-            sendAllA t is evs' { st1 with sink := a.sink, poisoned := a.poisoned, used := st.used + (evs.length - evs'.length), msgs := st.msgs ++ [o.bytes.take z] } (res :: acc)
+            sendAllA t is evs' { st1 with sink := a.sink, poisoned := a.poisoned, used := st.used + (evs.length - evs'.length), msgs := st.msgs ++ [mb.take z] } (res :: acc)
           | _ => sendAllA t is evs st1 ("FAULT" :: acc)
     | _ => (("FAULT" :: acc).reverse, st)
 
@@ -86,14 +103,14 @@ def joinC : List String → String
   | xs => ",".intercalate xs
 
 /-- two runs (prior buffer contents 00 / ff, raw padding ee / 11) to find the sink bytes that are not data -/
-def runS (t : Ty) (max : Nat) (script : List SEv) (inits : List Init) (async : Bool) : String :=
+def runS (t : Ty) (max : Nat) (script : List SEv) (inits : List (Init × List Op)) (async : Bool) : String :=
   let cap := bufCap t max
   let tail := inits.length * (cap + 2) + 4
-  let go (pre : UInt8) (is : List Init) : List String × SendSt :=
+  let go (pre : UInt8) (is : List (Init × List Op)) : List String × SendSt :=
     let st0 : SendSt := ⟨List.replicate cap pre, [], false, 0, []⟩
     if async then sendAllA t is (toAEvs script tail) st0 [] else sendAllB t is (toWriteEvs script tail) st0 []
   let (r1, s1) := go 0x00 inits
-  let (_, s2) := go 0xFF (substL 0xEE 0x11 inits)
+  let (_, s2) := go 0xFF (inits.map fun (i, eds) => (i.subst 0xEE 0x11, eds.map (Op.subst 0xEE 0x11)))
   -- the session function the C09 theorems are about (`sendSeq`) must tell the same story as the message-by-message run above
   let cross : Bool :=
     if async then
